@@ -339,12 +339,12 @@ def _plan(ctx, table):
         return rng.sample(names[k], min(n, len(names[k])))
 
     if ctx.quick:
-        return {"singles": set(short + some(3, 90)), "singles_template": set(names[0] + names[1] + some(2, 40) + some(3, 40)),
-                "cd": [n for n in short if n != "empty"] + some(3, 60),
+        return {"singles": set(short + some(3, 40)), "singles_template": set(names[0] + names[1] + some(2, 30) + some(3, 20)),
+                "cd": [n for n in short if n != "empty"] + some(3, 30),
                 "cd_shell": [n for n in short if n != "empty"],
                 "fallback": set(names[1] + some(2, 30))}
-    return {"singles": set(short + names[3] + some(4, 800)), "singles_template": set(short + some(3, 400) + some(4, 300)),
-            "cd": [n for n in short if n != "empty"] + names[3] + some(4, 800),
+    return {"singles": set(short + names[3] + some(4, 400)), "singles_template": set(short + some(3, 300) + some(4, 200)),
+            "cd": [n for n in short if n != "empty"] + names[3] + some(4, 400),
             "cd_shell": [n for n in short if n != "empty"] + names[3],
             "fallback": set(short + some(3, 200))}
 
@@ -405,16 +405,486 @@ def part_b(ctx):
 
 
 # ================================================================================================
+# part (a): session protocol
+# ================================================================================================
+
+ASIS = {"FallbackShell": "FALSE", "CloseOnFailure": "FALSE", "FallbackOnTimeout": "TRUE"}
+FIXED = {"FallbackShell": "TRUE", "CloseOnFailure": "TRUE", "FallbackOnTimeout": "FALSE"}
+INVARIANTS = ["TypeOK", "FreshEquivalence", "OwnOutput", "NoSpuriousTimeout", "ReturnedOnce", "NeverTwice", "VerbatimCommand"]
+
+
+def _shell_cfg(n, timeout, kill, variant, invariants, gen=False, statuses="{0, 3}"):
+    lines = ['CONSTANTS N = %d  Shapes = {"empty", "nonl", "multi", "mlike"}  Statuses = %s' % (n, statuses),
+             "CONSTANTS AllowTimeout = %s  AllowKill = %s" % ("TRUE" if timeout else "FALSE", "TRUE" if kill else "FALSE"),
+             "CONSTANTS " + "  ".join("%s = %s" % kv for kv in variant.items()),
+             "INIT MCInit", "NEXT %s" % ("GenNext" if gen else "MCNext")]
+    if not gen:
+        lines.append("VIEW View")
+    lines += ["INVARIANT %s" % i for i in invariants]
+    return "\n".join(lines) + "\n"
+
+
+def _norm_beh(b):
+    b = dict(b)
+    for key in ("hist", "attr", "ret", "runs", "garbled", "expected"):
+        b[key] = b.get(key) or []
+    for r in b["ret"]:
+        r["out"] = r["out"] or []
+    b["expected"] = [[e[0], e[1] or [], e[2]] for e in b["expected"]]
+    return b
+
+
+def _beh_key(b):
+    return json.dumps([b["attr"], b["hist"]], sort_keys=True)
+
+
+def _history_class(beh, k):
+    """What happened in the session before call k."""
+    seen = set()
+    for s in beh["hist"]:
+        if s["a"] == "call" and s["k"] == k:
+            break
+        if s["a"] in ("timeout", "kill"):
+            seen.add(s["a"])
+    return "after-" + "+".join(sorted(seen)) if seen else "clean"
+
+
+def _judge_session(ctx, beh, obs, world, stats):
+    """Property verdict for one replayed behaviour (+ agreement with the specification's prediction)."""
+    from vh.sut import shell_session as ss
+    n = len(beh["attr"])
+    follows = True
+    for k in range(1, n + 1):
+        attr = beh["attr"][k - 1]
+        got = obs["calls"][k]
+        g = {"kind": got["kind"], "out": ss.normalise_output(got["out"]) if got["kind"] == "ok" else "",
+             "st": got["st"] if got["kind"] == "ok" else 0}
+        exp = ss.expected_obs(beh, k)
+        spec = ss.spec_obs(beh, k)
+        spec_runs, spec_garbled = beh["runs"][k - 1], beh["garbled"][k - 1]
+        same_as_spec = (g == spec)
+        follows &= same_as_spec and obs["runs"][k] == spec_runs and obs["garbled"][k] == spec_garbled
+        ctx.case((world, _beh_key(beh), k), nontrivial=True)
+        stats["%s:calls" % world] += 1
+        hc = _history_class(beh, k)
+        detail = {"kind": "session", "world": world, "behaviour": beh, "call": k, "observed": got, "expected": exp,
+                  "spec": spec, "runs": obs["runs"][k], "spec_runs": spec_runs, "garbled": obs["garbled"][k],
+                  "notes": obs.get("notes")}
+        via = beh["ret"][k - 1]["via"]
+        if g != exp:
+            if g["kind"] == "ok" and exp["kind"] == "ok":
+                clause = "output" if g["out"] != exp["out"] else "status"
+            elif exp["kind"] == "ok":
+                clause = "raised-%s" % g["kind"]
+            else:
+                clause = "%s-instead-of-timeout" % g["kind"]
+            if same_as_spec and via == "shell" and clause in ("output", "status"):
+                sig = "session:stale-output-after-timeout"
+            elif same_as_spec and via == "fallback":
+                sig = "fallback:argv-run-without-shell:session"
+            else:
+                sig = "session:%s:unpredicted:%s:%s" % (clause, attr["shape"], hc)
+            ctx.violation(sig, detail, "%s session, call %d (%s, %s): expected %s, observed %s"
+                          % (world, k, attr["shape"], hc, exp, g))
+            stats["%s:violating_calls" % world] += 1
+        if obs["garbled"][k]:
+            sig = ("fallback:argv-run-without-shell:session" if spec_garbled
+                   else "session:command-line:unpredicted:%s:%s" % (attr["shape"], hc))
+            ctx.violation(sig, detail, "%s session, command %d was executed with a command line that is not the caller's" % (world, k))
+        if obs["runs"][k] != 1 and not (exp["kind"] == "timeout" and obs["runs"][k] == 0):
+            if obs["runs"][k] >= 2 and obs["runs"][k] == spec_runs:
+                sig = "fallback:double-execution-after-timeout"
+            else:
+                sig = "session:runs-%d:unpredicted:%s:%s" % (obs["runs"][k], attr["shape"], hc)
+            ctx.violation(sig, detail, "%s session, command %d (%s) was executed %d times" % (world, k, hc, obs["runs"][k]))
+            stats["%s:run_count_violations" % world] += 1
+    stats["%s:behaviours" % world] += 1
+    stats["%s:behaviours_following_spec" % world] += 1 if follows else 0
+    if not follows and len(stats["%s:divergence_samples" % world]) < 4:
+        stats["%s:divergence_samples" % world].append(
+            {"attr": beh["attr"], "hist": beh["hist"], "spec": [ss.spec_obs(beh, k) for k in range(1, n + 1)],
+             "spec_runs": beh["runs"], "observed": obs["calls"], "runs": obs["runs"], "notes": obs.get("notes"),
+             "skipped": obs.get("skipped")})
+    return follows
+
+
+def _replay_fake_batch(ctx, behs, stats):
+    from vh.sut import shell_session as ss
+
+    async def all_():
+        out = []
+        for b in behs:
+            out.append(await ss.replay_fake(b))
+        return out
+    res, exc = ss.run_virtual(all_())
+    if exc is not None:
+        raise exc
+    for b, obs in zip(behs, res):
+        if obs["unparsed"]:
+            stats["fake:framing_not_understood"] += 1
+            if stats["fake:framing_not_understood"] == 1:
+                print("NOTE C25: the scripted shell does not understand what the code writes to the shell (%r); the "
+                      "chunk-exact binding is skipped for such behaviours, the real /bin/sh binding still applies"
+                      % obs["unparsed"][0][:120], flush=True)
+            continue
+        _judge_session(ctx, b, obs, "fake", stats)
+        stats["fake:read_sizes"] = sorted(set(stats["fake:read_sizes"] or []) | set(obs["read_sizes"]))
+    return res
+
+
+def _features(b):
+    f = set()
+    for k, a in enumerate(b["attr"], 1):
+        f.add(("shape", a["shape"], _history_class(b, k)))
+        f.add(("slow", a["slow"], a["tmo"]))
+        f.add(("via", b["ret"][k - 1]["via"], b["ret"][k - 1]["kind"], a["shape"]))
+        f.add(("runs", b["runs"][k - 1]))
+    acts = [s["a"] for s in b["hist"]]
+    for x, y in zip(acts, acts[1:]):
+        f.add(("seq", x, y))
+    return f
+
+
+def _select(behs, n, rng):
+    """Greedy feature cover, then seeded fill."""
+    from vh.sut import shell_session as ss
+    by_proj = {}
+    for b in behs:
+        by_proj.setdefault(json.dumps(ss.projection(b), sort_keys=True), b)
+    pool = sorted(by_proj.values(), key=_beh_key)
+    chosen, covered = [], set()
+    while pool and len(chosen) < n:
+        best = max(pool, key=lambda b: (len(_features(b) - covered), -len(b["hist"])))
+        if not (_features(best) - covered):
+            break
+        chosen.append(best)
+        covered |= _features(best)
+        pool.remove(best)
+    rng.shuffle(pool)
+    chosen += pool[:max(0, n - len(chosen))]
+    return chosen
+
+
+def _replay_real_batch(ctx, behs, stats):
+    from vh.sut import shell_session as ss
+    root = ctx.scratch("session")
+    script = ss.write_cmd_script(root)
+    counter = [0]
+
+    async def one(b, T, STALL):
+        counter[0] += 1
+        return await ss.replay_real(b, os.path.join(root, "s%d" % counter[0]), script, T, STALL)
+
+    def follows(b, obs):
+        n = len(b["attr"])
+        for k in range(1, n + 1):
+            got = obs["calls"][k]
+            g = {"kind": got["kind"], "out": ss.normalise_output(got["out"]) if got["kind"] == "ok" else "",
+                 "st": got["st"] if got["kind"] == "ok" else 0}
+            if g != ss.spec_obs(b, k) or obs["runs"][k] != b["runs"][k - 1] or obs["garbled"][k] != b["garbled"][k - 1]:
+                return False
+        return True
+
+    def timing_suspect(b, obs, T):
+        """A command that is not slow ran into its timeout although the specification lets it answer from the
+        shell: on an overloaded machine a process start can exceed any fixed timeout."""
+        for k, a in enumerate(b["attr"], 1):
+            c = obs["calls"][k]
+            if a["slow"] == "no" and a["tmo"] and b["ret"][k - 1]["via"] == "shell" and c.get("elapsed", 0) >= 0.8 * T:
+                return True
+        return False
+
+    async def spawn_latency():
+        worst = 0.0
+        for _ in range(4):
+            import time as _time
+            t0 = _time.time()
+            p = await asyncio.create_subprocess_exec("/bin/sh", "-c", "sh -c true")
+            await p.wait()
+            worst = max(worst, _time.time() - t0)
+        return worst
+
+    async def all_():
+        sem = asyncio.Semaphore(ctx.pick(24, 32))
+        lat = await spawn_latency()
+        T1 = min(6.0, max(1.0, 12 * lat))
+        stats["real:spawn_latency_ms"] = int(lat * 1000)
+        stats["real:timeout_used_ms"] = int(T1 * 1000)
+
+        async def guarded_one(b):
+            async with sem:
+                obs = await one(b, T1, 7 * T1)
+                if not follows(b, obs):
+                    # not what the specification predicts: repeat with much larger margins before believing it
+                    stats["real:repeated_with_larger_margins"] += 1
+                    T2 = 4 * T1
+                    obs = await one(b, T2, 7 * T2)
+                    if not follows(b, obs) and timing_suspect(b, obs, T2):
+                        obs["inconclusive"] = True
+                return obs
+        return await asyncio.gather(*(guarded_one(b) for b in behs))
+
+    res, exc = aio.run(all_(), timeout=ctx.pick(900, 2400))
+    if exc is not None:
+        raise exc
+    for b, obs in zip(behs, res):
+        if obs.get("inconclusive"):
+            stats["real:inconclusive_timing"] += 1
+            print("NOTE C25: a real-shell replay is not judged: a fast command needed longer than %d ms to answer "
+                  "(overloaded machine); the scripted-environment binding covers the same behaviour" % (4 * stats["real:timeout_used_ms"]),
+                  flush=True)
+            continue
+        _judge_session(ctx, b, obs, "real", stats)
+    return res
+
+
+async def _large_outputs(ctx, stats):
+    """Real shell, real /bin/sh: outputs of 0..1 MiB (with and without trailing newline) and exit codes."""
+    root = ctx.scratch("large")
+    gen = os.path.join(root, "gen.sh")
+    with open(gen, "w") as f:
+        f.write('#!/bin/sh\n# gen.sh BYTES NEWLINE STATUS\nhead -c "$1" /dev/zero | tr "\\000" "x"\n'
+                'if [ "$2" = 1 ]; then echo; fi\nexit "$3"\n')
+    Remote = se.make_remote_class()
+    conn = Remote("vh-large", root, 65536)
+    loc = se.location()
+    sizes = ctx.pick([0, 1, 65535, 65536, 65537, 200000], [0, 1, 2, 4095, 4096, 65535, 65536, 65537, 131072, 1000000, 1048576])
+    codes = ctx.pick([0, 1, 2, 127, 255], list(range(256)))
+    cases = [(n, nl, 0) for n in sizes for nl in (0, 1)] + [(3, 1, c) for c in codes]
+    try:
+        for n, nl, code in cases:
+            res, exc = await se.guarded(conn.run(loc, ["sh", gen, str(n), str(nl), str(code)], capture_output=True, timeout=120), 200)
+            ctx.case(("large", n, nl, code))
+            stats["real:size_and_status_cases"] += 1
+            want = ("x" * n, code)
+            got = tuple(res) if isinstance(res, tuple) else ("raised:%s" % se.describe_exc(exc) if exc else repr(res))
+            if got != want:
+                clause = "status" if isinstance(got, tuple) and got[0] == want[0] else "output"
+                ctx.violation("session:%s:size-%d:newline-%d" % (clause, n, nl),
+                              {"kind": "large", "n": n, "nl": nl, "code": code,
+                               "got": (got[0][:80], got[1]) if isinstance(got, tuple) else got},
+                              "persistent shell: %d bytes of output (trailing newline %d), exit %d came back as %s"
+                              % (n, nl, code, (len(got[0]), got[1]) if isinstance(got, tuple) else got))
+    finally:
+        await se.guarded(conn.undeploy(False), 30)
+
+
+def _quiet_logs():
+    import logging
+    try:
+        from streamflow.log_handler import logger
+        logger.setLevel(logging.ERROR)
+    except Exception:  # noqa
+        pass
+
+
+def _t(ctx, what):
+    import time
+    now = time.time()
+    last = getattr(ctx, "_c25_t", ctx.t0)
+    ctx.extra.setdefault("phase_wall_s", {})[what] = round(now - last, 1)
+    ctx._c25_t = now
+
+
+def _model_cex(ctx, invs):
+    """As coded, the model violates the property: one TLC counterexample per invariant (prefix behaviours)."""
+    from vh.sut import shell_session as ss
+    cex = []
+    # as coded: the model predicts violations; every counterexample is replayed on the real code below
+    cex = []
+    for inv in invs:
+        r = ctx.tlc("Shell", "MC_Shell", "asis.cfg", files={"asis.cfg": _shell_cfg(2, True, True, ASIS, [inv])}, timeout=1800)
+        ctx.require(r.error == "invariant" and r.trace, "the as-coded model was expected to violate %s" % inv)
+        last = r.trace[-1]["state"]
+        n = len(last["attr"])
+        b = _norm_beh({"attr": last["attr"], "hist": last["hist"], "ret": last["ret"], "runs": last["runs"],
+                       "garbled": last["garbled"], "expected": None})
+        # the counterexample stops at the violation: the calls that were not made are not judged
+        b["expected"] = [[("timeout" if a["slow"] != "no" else "ok"),
+                          ([] if a["slow"] != "no" else _strip_tokens(ss.out_tokens(a["shape"], k + 1))),
+                          (0 if a["slow"] != "no" else a["status"])] for k, a in enumerate(b["attr"])]
+        b["cex_of"] = inv
+        b["partial"] = True
+        cex.append(b)
+    return cex
+
+
+def _replay_cex(ctx, cex, stats):
+    from vh.sut import shell_session as ss
+    # the model's counterexamples, replayed: does the real code follow them?  (A counterexample is a prefix of a
+    # behaviour; the verdicts on the code come from the complete generated behaviours above, here we only record
+    # whether the code reproduces what the model says for the calls that were made.)
+    for b in cex:
+        made = sorted({s_["k"] for s_ in b["hist"] if s_["a"] == "call"})
+        pb = _only_calls(b, set(made))
+        res, exc = ss.run_virtual(ss.replay_fake(pb))
+        if exc is not None:
+            raise exc
+        ok = True
+        for k in made:
+            if b["ret"][k - 1]["kind"] == "none":
+                continue
+            got = res["calls"][k]
+            g = {"kind": got["kind"], "out": ss.normalise_output(got["out"]) if got["kind"] == "ok" else "",
+                 "st": got["st"] if got["kind"] == "ok" else 0}
+            ok &= (g == ss.spec_obs(pb, k))
+        stats["fake:counterexamples_replayed"] += 1
+        stats["fake:counterexamples_followed_by_the_code"] += 1 if ok else 0
+        ctx.extra.setdefault("model_counterexamples", []).append(
+            {"invariant": b["cex_of"], "attr": pb["attr"], "hist": b["hist"], "code_follows": ok})
+
+
+def part_a(ctx):
+    from vh.sut import shell_session as ss
+    stats = _Stats()
+    _quiet_logs()
+    # ---- 1. the model
+    r = ctx.tlc("Shell", "MC_Shell", "clean.cfg", files={"clean.cfg": _shell_cfg(3, False, False, ASIS, INVARIANTS)}, timeout=1800)
+    if not r.ok:
+        ctx.require(False, "Shell: the protocol without timeouts/failures violates %s in the model: specification error\n%s"
+                    % (r.violated, r.stdout[-1500:]))
+    nfix = ctx.pick(2, 3)
+    r = ctx.tlc("Shell", "MC_Shell", "fixed.cfg", files={"fixed.cfg": _shell_cfg(nfix, True, True, FIXED, INVARIANTS)}, timeout=3000)
+    if not r.ok:
+        ctx.require(False, "Shell: the repaired protocol violates %s in the model\n%s" % (r.violated, r.stdout[-1500:]))
+    cex = _model_cex(ctx, ctx.pick([], ["FreshEquivalence", "ReturnedOnce", "NeverTwice", "VerbatimCommand"]))
+    ctx.count("session:model_counterexamples", len(cex))
+    _t(ctx, "a:model")
+    # ---- 2. behaviours for the binding (as-coded variant: the environment choices are the same in every variant)
+    g = ctx.tlc("Shell", "MC_Shell", "gen.cfg", files={"gen.cfg": _shell_cfg(3, True, True, ASIS, [], gen=True)}, workers=1,
+                count=False, simulate={"num": ctx.pick(260, 2500), "depth": 90}, timeout=3000)
+    seen, behs = set(), []
+    for b in g.printed_json():
+        if "hist" not in b:
+            continue
+        b = _norm_beh(b)
+        key = _beh_key(b)
+        if key not in seen:
+            seen.add(key)
+            behs.append(b)
+    ctx.require(len(behs) >= 100, "only %d behaviours generated" % len(behs))
+    acts = {}
+    for b in behs:
+        for s_ in b["hist"]:
+            acts[s_["a"]] = acts.get(s_["a"], 0) + 1
+    ctx.require(all(acts.get(a, 0) > 0 for a in ("call", "run", "read", "timeout", "wake", "kill")),
+                "vacuous generation: action counts %s" % acts)
+    ctx.extra["session_actions_in_generated_behaviours"] = acts
+    ctx.count("session:behaviours_generated", len(behs))
+    ctx.count("session:model_predicts_violation", sum(1 for b in behs if any(
+        [r_["kind"], r_["out"], r_["st"]] != e for r_, e in zip(b["ret"], b["expected"])) or any(x > 1 for x in b["runs"])
+        or any(b["garbled"])))
+    _t(ctx, "a:generate")
+    # ---- 3. chunk-exact binding on the scripted environment (virtual time)
+    _replay_fake_batch(ctx, behs, stats)
+    _replay_cex(ctx, cex, stats)
+    ctx.sample({"behaviour": {"attr": behs[0]["attr"], "hist": behs[0]["hist"]}, "spec_ret": behs[0]["ret"]})
+    _t(ctx, "a:fake")
+    # ---- 4. real /bin/sh sessions
+    chosen = _select(behs, ctx.pick(28, 120), ctx.rng("real"))
+    _replay_real_batch(ctx, chosen, stats)
+    _t(ctx, "a:real")
+    _, exc = aio.run(_large_outputs(ctx, stats), timeout=1200)
+    if exc is not None:
+        raise exc
+    _t(ctx, "a:large")
+    for k, val in stats.items():
+        if k.endswith("samples"):
+            if val:
+                ctx.extra["session_" + k] = val
+        elif isinstance(val, list):
+            ctx.extra["session_" + k] = val
+        else:
+            ctx.count("session:" + k, val)
+    for w in ("fake", "real"):
+        nb, nf = stats["%s:behaviours" % w], stats["%s:behaviours_following_spec" % w]
+        if nb != nf:
+            print("NOTE C25: %d of %d %s-session behaviours do not follow the as-coded specification (the protocol "
+                  "changed, or the model is wrong); see evidence session_%s:divergence_samples" % (nb - nf, nb, w, w), flush=True)
+    ctx.impl_trace(stats["fake:behaviours"] + stats["real:behaviours"])
+
+
+def _strip_tokens(toks):
+    toks = list(toks)
+    while toks and toks[0][0] == "nl":
+        toks.pop(0)
+    while toks and toks[-1][0] == "nl":
+        toks.pop()
+    return toks
+
+
+def _only_calls(b, made):
+    """Restrict a (prefix) behaviour to the calls that were made."""
+    n = max(made) if made else 0
+    c = dict(b)
+    for key in ("attr", "ret", "runs", "garbled", "expected"):
+        c[key] = b[key][:n]
+    return c
+
+
+# ================================================================================================
 
 def run(ctx):
     ctx.rule = ("(b) every sequence of <=3 (thorough 4) character classes out of 11, instantiated with concrete characters, as "
                 "environment value, working directory and argument through the real LocalConnector.run, BaseConnector.run (shell "
                 "path and fallback path) and CommandTemplateMap.get_command, executed by /bin/sh with a probe script; non-trivial = "
                 "the value has a non-plain character")
-    part_b(ctx)
+    _quiet_logs()
+    if os.environ.get("VH_C25_PART", "ab").find("b") >= 0:
+        part_b(ctx)
+        _t(ctx, "b")
+    if os.environ.get("VH_C25_PART", "ab").find("a") >= 0:
+        part_a(ctx)
+    if os.environ.get("VH_C25_PART", "ab").find("c") >= 0:      # development aid: only the counterexample loop
+        st = _Stats()
+        _replay_cex(ctx, _model_cex(ctx, ["FreshEquivalence", "ReturnedOnce", "NeverTwice", "VerbatimCommand"]), st)
+        ctx.extra["cex_stats"] = dict(st)
     ctx.assumptions += ["/bin/sh is dash (POSIX sh); variables k, kk, kkk and VHK are unset and no executable of those names exists",
                         "returned output is compared modulo str.strip(), which every run path applies"]
 
 
 def replay(ctx, data):
+    """Re-run exactly the failing case: one (site, value) of part (b) or one behaviour of part (a)."""
+    _quiet_logs()
+    d = data.get("detail", {})
+    kind = d.get("kind")
+    if kind == "session" and d.get("behaviour"):
+        beh = _norm_beh(d["behaviour"])
+        stats = _Stats()
+        if d.get("world") == "real":
+            _replay_real_batch(ctx, [beh], stats)
+        else:
+            _replay_fake_batch(ctx, [beh], stats)
+        return
+    if kind == "quoting" and d.get("site") in SITE_RUN:
+        bench = QuoteBench(ctx)
+        stats = _Stats()
+        v, s, site = d["v"], d["value"], d["site"]
+        what = SITE_RUN[site]
+        ctxname = {"unquoted-context": "UNQ", "double-quote-context": "DQ"}.get(data["signature"].split(":")[-2 if "unpredicted" not in data["signature"] else -3], "SQ2")
+
+        async def one():
+            os.chdir(bench.empty)
+            if d.get("path", "").startswith("CommandTemplateMap"):
+                return None
+            conn = bench.local if d.get("path", "").startswith("LocalConnector") else bench.Remote("vh-remote", bench.root, 65536)
+            kw = {"env": {"envs": [s]}, "arg": {"args": [s]}, "cd": {"workdir": bench.workdir(s)}}[what]
+            o = await _run_probe(bench, conn, timeout=30, **kw)
+            if conn is not bench.local:
+                await se.guarded(conn.undeploy(False), 30)
+            return o
+        cwd = os.getcwd()
+        try:
+            o, exc = aio.run(one(), timeout=300)
+        finally:
+            os.chdir(cwd)
+        if exc is not None:
+            raise exc
+        if o is not None:
+            _judge(ctx, site, ctxname, v, s, d["spec"], _received(o, what, bench), o, stats, d.get("path", "?"))
+            return
     run(ctx)
+
+
+SITE_RUN = {"create_command:export": "env", "create_command:cd": "cd", "argv": "arg",
+            "_build_shell_command:export": "env", "_build_shell_command:cd": "cd", "get_command:export": "env"}
